@@ -5,6 +5,8 @@ from dataflow import *
 from cfgq import *
 from parsers import *
 
+ITER_THROUGH = DEFAULT_THROUGH + [r'slice::<impl \[T\]>::(iter|iter_mut)$', r'IntoIterator>?::into_iter$', r'Iterator>?::(next|enumerate|rev|skip)$', r'slice::<impl \[T\]>::(first|first_mut|last)$']
+
 def meta_switch(body):
     """the dominating switch on the discriminant of a meta::Meta value"""
     cands = [s for s in switches(body) if s.kind == 'enum' and s.enum == 'meta::Meta']
@@ -52,6 +54,24 @@ def coverage(fs, body, walker_names):
                         if any(cc.is_(*walker_names) for cc in clo.calls()):
                             passes_closure = clo
             if not (is_walker or takes_walker_fn or passes_closure):
+                # a crate helper that is handed the children and calls the walker back (mutual recursion)
+                for h in callee_bodies(fs, c):
+                    back = [hc for hc in h.calls() if hc.is_(*walker_names)]
+                    if not back or h.path == body.path:
+                        continue
+                    hp = {h.name_of(i + 1): i for i in range(h.arg_count)}
+                    for hc in back:
+                        looped = hc.target is not None and hc.bb in reachable_edges(h, hc.target) and any(x_.is_(r'Iterator>?::next$') for x_ in h.calls())
+                        for a in hc.args:
+                            pl = op_place(a)
+                            if pl is None or 'meta::Meta' not in h.local_ty(pl[0]):
+                                continue
+                            for r in provenance(h, a, hc.bb, 'term', through=ITER_THROUGH):
+                                if r.kind == 'param' and r.what in hp and hp[r.what] < len(c.args):
+                                    # which child of the node was given to the helper?
+                                    for q in provenance(body, c.args[hp[r.what]], x, 'term', through=ITER_THROUGH):
+                                        if q.kind in ('param', 'upvar') and q.path:
+                                            kinds.add('all' if looped else 'child')
                 continue
             # what does the call walk over?
             src = c.args[0] if (takes_walker_fn or passes_closure) else None
